@@ -10,6 +10,7 @@ the local `last_frame` of the dropped player.
 -/
 import GgrsModel.Model.Inventory
 import GgrsModel.Model.P2P
+import GgrsModel.Proofs.DropWorld
 
 namespace Ggrs.Endpoint
 
@@ -46,3 +47,123 @@ theorem C10_last_frame_not_lowered (s : P2P) (h : Nat) (f : ConnStatus → ConnS
   · simp [rget, rset, List.getD_eq_getElem?_getD, List.getElem?_set_ne hk]
 
 end Ggrs.P2P
+
+namespace Ggrs
+
+/-- A dead remote player's column up to its last frame after one more call, with the stream unchanged. -/
+theorem dead_column_after_call (s s' : P2P) (gh : DGhost) (t : TLState) (st0 : List ConnStatus)
+    (h : SessInvD s gh t [] st0) (now : Nat) (reqs' : List Request)
+    (hadv : s.advanceRollbackFrame now [] = .ok (s', reqs'))
+    (p : Nat) (hp : p < s.sync.queues.length) (hnl : p ∉ s.localPlayerHandles)
+    (hd : (rget s.localConnectStatus p).disconnected = true)
+    (f : Nat) (hf : (f : Int) < s'.sync.currentFrame) (hle : (f : Int) ≤ (rget s.localConnectStatus p).lastFrame) :
+    ∃ gh' : DGhost, gh'.specs p = gh.specs p ∧
+      (((execReqs t reqs').R f).getD p default).1 = (gh'.specs p).vals.getD f 0 := by
+  obtain ⟨_, _, _, _, gh', _, _, hinv', hh, _, hnq, _, hsame, _, hsp, _⟩ :=
+    advanceRollbackFrame_specD s s' gh t [] reqs' now st0 h hadv
+  have hp' : p < s'.sync.queues.length := by rw [hnq]; exact hp
+  have hst := hsame p hd
+  have hd' : (rget s'.localConnectStatus p).disconnected = true := by rw [hst]; exact hd
+  have hlp : s'.localPlayerHandles = s.localPlayerHandles := by unfold P2P.localPlayerHandles; rw [hh]
+  exact ⟨gh', hsp p hnl,
+    deadColumn_right s' gh' t reqs' _ hinv' p hp' hd' (by rw [hlp]; exact hnl) f hf (by rw [hst]; exact hle)⟩
+
+end Ggrs
+
+namespace Ggrs
+
+/-- **C10, the case that does hold: survivors with the same cut-off.** Two survivors A and B, each in a
+state its own world with drops reaches (`SessInvD`, by `XInv_run`: any run of arrivals, calls and
+locally detected drops), both have the remote player `p` marked disconnected with the SAME last
+frame, and what each has received of `p` is a prefix of one common stream (`C05_stream_intact` per
+link). Then after their next calls the two games' timelines carry identical entries — input and
+status — for `p` on every frame beyond that last frame (blank, Disconnected), and identical inputs
+on every frame up to it: they have settled on one cut-off and use the same inputs for the dropped
+player throughout. (When the survivors had received different amounts,
+`update_player_disconnects` is supposed to bring them to the earliest cut-off; that is where the
+implementation fails — `C10_last_frame_not_lowered`, the known finding.) -/
+theorem C10_same_cutoff_agree (sA sB sA' sB' : P2P) (tA tB : TLState) (ghA ghB : DGhost) (stA stB : List ConnStatus)
+    (hA : SessInvD sA ghA tA [] stA) (hB : SessInvD sB ghB tB [] stB) (p : Nat)
+    (hpA : p < sA.sync.queues.length) (hpB : p < sB.sync.queues.length)
+    (hnlA : p ∉ sA.localPlayerHandles) (hnlB : p ∉ sB.localPlayerHandles)
+    (hdA : (rget sA.localConnectStatus p).disconnected = true)
+    (hdB : (rget sB.localConnectStatus p).disconnected = true)
+    (hL : (rget sA.localConnectStatus p).lastFrame = (rget sB.localConnectStatus p).lastFrame)
+    (hlinks : ∃ S : List Input, (ghA.specs p).vals <+: S ∧ (ghB.specs p).vals <+: S)
+    (nowA nowB : Nat) (reqsA reqsB : List Request)
+    (hcA : sA.advanceRollbackFrame nowA [] = .ok (sA', reqsA))
+    (hcB : sB.advanceRollbackFrame nowB [] = .ok (sB', reqsB)) :
+    ∀ f : Nat, (f : Int) < sA'.sync.currentFrame → (f : Int) < sB'.sync.currentFrame →
+      ((rget sA.localConnectStatus p).lastFrame < (f : Int) →
+        ((execReqs tA reqsA).R f).getD p default = ((execReqs tB reqsB).R f).getD p default) ∧
+      ((f : Int) ≤ (rget sA.localConnectStatus p).lastFrame →
+        (((execReqs tA reqsA).R f).getD p default).1 = (((execReqs tB reqsB).R f).getD p default).1) := by
+  obtain ⟨_, _, _, _, ghA', _, _, hinvA, hhA, _, hnqA, _, hsameA, _, hspA, _⟩ :=
+    advanceRollbackFrame_specD sA sA' ghA tA [] reqsA nowA stA hA hcA
+  obtain ⟨_, _, _, _, ghB', _, _, hinvB, hhB, _, hnqB, _, hsameB, _, hspB, _⟩ :=
+    advanceRollbackFrame_specD sB sB' ghB tB [] reqsB nowB stB hB hcB
+  have hpA' : p < sA'.sync.queues.length := by rw [hnqA]; exact hpA
+  have hpB' : p < sB'.sync.queues.length := by rw [hnqB]; exact hpB
+  have hstA := hsameA p hdA
+  have hstB := hsameB p hdB
+  have hdA' : (rget sA'.localConnectStatus p).disconnected = true := by rw [hstA]; exact hdA
+  have hdB' : (rget sB'.localConnectStatus p).disconnected = true := by rw [hstB]; exact hdB
+  have hlpA : sA'.localPlayerHandles = sA.localPlayerHandles := by unfold P2P.localPlayerHandles; rw [hhA]
+  have hlpB : sB'.localPlayerHandles = sB.localPlayerHandles := by unfold P2P.localPlayerHandles; rw [hhB]
+  obtain ⟨S, hSA, hSB⟩ := hlinks
+  rw [← hspA p hnlA] at hSA
+  rw [← hspB p hnlB] at hSB
+  intro f hfA hfB
+  refine ⟨fun hlf => ?_, fun hle => ?_⟩
+  · rw [hinvA.tinv.deadRows p hpA' hdA' f (by rw [hstA]; exact hlf) hfA,
+      hinvB.tinv.deadRows p hpB' hdB' f (by rw [hstB, ← hL]; exact hlf) hfB]
+  · have hlenA := hinvA.remote p hpA' (by rw [hlpA]; exact hnlA)
+    have hlenB := hinvB.remote p hpB' (by rw [hlpB]; exact hnlB)
+    rw [deadColumn_right sA' ghA' tA reqsA _ hinvA p hpA' hdA' (by rw [hlpA]; exact hnlA) f hfA (by rw [hstA]; exact hle),
+      deadColumn_right sB' ghB' tB reqsB _ hinvB p hpB' hdB' (by rw [hlpB]; exact hnlB) f hfB (by rw [hstB, ← hL]; exact hle)]
+    have hfa : f < (ghA'.specs p).vals.length := by
+      have := hlenA.2.2; rw [hlenA.2.1, hstA] at this; omega
+    have hfb : f < (ghB'.specs p).vals.length := by
+      have := hlenB.2.2; rw [hlenB.2.1, hstB, ← hL] at this; omega
+    obtain ⟨tA', hA'⟩ := hSA
+    obtain ⟨tB', hB'⟩ := hSB
+    have e1 : ((ghA'.specs p).vals ++ tA').getD f 0 = (ghA'.specs p).vals.getD f 0 := by
+      simp [List.getD_eq_getElem?_getD, List.getElem?_append_left hfa]
+    have e2 : ((ghB'.specs p).vals ++ tB').getD f 0 = (ghB'.specs p).vals.getD f 0 := by
+      simp [List.getD_eq_getElem?_getD, List.getElem?_append_left hfb]
+    rw [← e1, ← e2, hA', hB']
+
+/-- **C10, why it fails, at session level (every such pair of states).** Two survivors A and B in states
+their worlds reach, both with the remote player `p` marked disconnected, but with DIFFERENT last
+frames `L_B < L_A` — which is what they are left with when B had received less of `p` than A and
+`update_player_disconnects` adopts B's cut-off at A without lowering A's own `last_frame`
+(`C10_last_frame_not_lowered`). Then after their next calls, on every frame `f` with
+`L_B < f ≤ L_A` that both have simulated, A's game was last simulated with `p`'s real input of `f`
+and B's game with the blank input: whenever that real input is not the blank one, the two games are
+fed different inputs for the dropped player, and their states diverge. -/
+theorem C10_different_cutoffs_disagree (sA sB sA' sB' : P2P) (tA tB : TLState) (ghA ghB : DGhost)
+    (stA stB : List ConnStatus)
+    (hA : SessInvD sA ghA tA [] stA) (hB : SessInvD sB ghB tB [] stB) (p : Nat)
+    (hpA : p < sA.sync.queues.length) (hpB : p < sB.sync.queues.length)
+    (hnlA : p ∉ sA.localPlayerHandles)
+    (hdA : (rget sA.localConnectStatus p).disconnected = true)
+    (hdB : (rget sB.localConnectStatus p).disconnected = true)
+    (nowA nowB : Nat) (reqsA reqsB : List Request)
+    (hcA : sA.advanceRollbackFrame nowA [] = .ok (sA', reqsA))
+    (hcB : sB.advanceRollbackFrame nowB [] = .ok (sB', reqsB))
+    (f : Nat) (hfA : (f : Int) < sA'.sync.currentFrame) (hfB : (f : Int) < sB'.sync.currentFrame)
+    (hlo : (rget sB.localConnectStatus p).lastFrame < (f : Int))
+    (hhi : (f : Int) ≤ (rget sA.localConnectStatus p).lastFrame) :
+    ∃ ghA' : DGhost, ghA'.specs p = ghA.specs p ∧
+      (((execReqs tA reqsA).R f).getD p default).1 = (ghA.specs p).vals.getD f 0 ∧
+      ((execReqs tB reqsB).R f).getD p default = (0, .disconnected) := by
+  obtain ⟨ghA', hA1, hA2⟩ := dead_column_after_call sA sA' ghA tA stA hA nowA reqsA hcA p hpA hnlA hdA f hfA hhi
+  obtain ⟨_, _, _, _, ghB', _, _, hinvB, _, _, hnqB, _, hsameB, _, _⟩ :=
+    advanceRollbackFrame_specD sB sB' ghB tB [] reqsB nowB stB hB hcB
+  have hpB' : p < sB'.sync.queues.length := by rw [hnqB]; exact hpB
+  have hstB := hsameB p hdB
+  refine ⟨ghA', hA1, by rw [hA2, hA1], ?_⟩
+  exact hinvB.tinv.deadRows p hpB' (by rw [hstB]; exact hdB) f (by rw [hstB]; exact hlo) hfB
+
+end Ggrs
+
